@@ -7,6 +7,7 @@ import (
 	"crypto/sha256"
 	"fmt"
 	"io"
+	"strings"
 	"sync"
 	"testing"
 	"testing/synctest"
@@ -63,13 +64,33 @@ func TestC11Pedersen(t *testing.T) {
 	})
 }
 
+// run performs one ceremony or, half of the time, two independent ceremonies of the same members one after
+// the other ("repeated independent ceremonies"); in the second one the network re-delivers public-share
+// messages of the first (late duplicates), which must not leak into its result.
 func run(rt *rapid.T, maxN int) {
 	n := rapid.IntRange(3, maxN).Draw(rt, "n")
-	// kyber requires threshold >= ceil-ish minimum? the production check is validateThreshold; the
-	// generator follows what dkg.Run accepts: 2..n.
+	// the generator follows what dkg.Run accepts: 2..n.
 	th := rapid.IntRange(2, n).Draw(rt, "t")
 	v := rapid.IntRange(1, 3).Draw(rt, "validators")
-	session := sha256.Sum256([]byte(fmt.Sprintf("session-%d", rapid.IntRange(0, 1<<20).Draw(rt, "session"))))
+	repeated := rapid.Bool().Draw(rt, "repeatedCeremony")
+	first := ceremony(rt, n, th, v, "first", nil)
+	if !repeated {
+		return
+	}
+	var stale []*memnet.Frame
+	for _, f := range first.All {
+		if strings.Contains(string(f.Proto), "val_pubkey_share") && rapid.IntRange(0, 2).Draw(rt, "replayStale") != 0 {
+			stale = append(stale, f)
+		}
+	}
+	vstat.Count("pedersen_stale_pubshare_frames_replayed", int64(len(stale)))
+	ceremony(rt, n, th, v, "second", stale)
+}
+
+// ceremony runs one pedersen ceremony over a fresh in-memory network and judges its outputs. stale frames
+// (from an earlier ceremony) are delivered to the new boards right after they were created.
+func ceremony(rt *rapid.T, n, th, v int, label string, stale []*memnet.Frame) *memnet.Net {
+	session := sha256.Sum256([]byte(fmt.Sprintf("session-%s-%d", label, rapid.IntRange(0, 1<<20).Draw(rt, "session"))))
 	phase := time.Duration(rapid.IntRange(1, 10).Draw(rt, "phase_s")) * time.Second
 
 	var peers []peer.ID
@@ -92,6 +113,11 @@ func run(rt *rapid.T, maxN int) {
 		caster := bcast.New(h, peers, nodeKey(i), session[:])
 		configs[i] = pedersen.NewConfig(peers[i], peerMap, th, session[:], phase, nil)
 		boards[i] = pedersen.NewBoard(ctx, h, configs[i], caster)
+	}
+	for _, f := range stale {
+		net.Deliver(net.InjectRaw(f.From, f.To, f.Proto, f.Req))
+		net.Take(net.NPending() - 1)
+		synctest.Wait()
 	}
 	res := make([]result, n)
 	var mu sync.Mutex
@@ -151,11 +177,11 @@ func run(rt *rapid.T, maxN int) {
 	}
 	st, bad := dkgoracle.Check(n, th, v, perNode, 40, func(k int) int { return rapid.IntRange(0, k-1).Draw(rt, "subset") })
 	if bad != "" {
-		rt.Fatalf("%s  [pedersen n=%d t=%d v=%d]", bad, n, th, v)
+		rt.Fatalf("%s  [pedersen n=%d t=%d v=%d, %s ceremony, %d stale public-share frames re-delivered]", bad, n, th, v, label, len(stale))
 	}
 	vstat.Count("t_subsets_checked", int64(st.Subsets))
 	vstat.Max("frames_per_ceremony", int64(len(net.All)))
-	classes := []string{"transport:pedersen", fmt.Sprintf("pedersen_cfg:n%d_t%d", n, th), fmt.Sprintf("pedersen_validators:%d", v)}
+	classes := []string{"transport:pedersen", "pedersen_ceremony:" + label, fmt.Sprintf("pedersen_cfg:n%d_t%d", n, th), fmt.Sprintf("pedersen_validators:%d", v)}
 	if reordered {
 		classes = append(classes, "pedersen_frames_reordered")
 	}
@@ -164,6 +190,7 @@ func run(rt *rapid.T, maxN int) {
 		vstat.Sample("pedersen", map[string]any{"n": n, "threshold": th, "validators": v, "transport": "pedersen over memnet", "frames": len(net.All), "phase": phase.String(),
 			"group_key_validator0": fmt.Sprintf("%x", perNode[0][0].PubKey[:8])})
 	}
+	return net
 }
 
 func firstErr(res []result, mu *sync.Mutex) error {
